@@ -10,7 +10,11 @@
 //	the mutexes held that belong to the same owner object (access path equality)
 //	or are package level variables; map updates and deletes are writes of "...{}";
 //	go statements, channel operations, range loops over maps, calls into math/rand
-//	and time, WaitGroup/Once/atomic operations, calls through function values,
+//	and time, WaitGroup/Once/atomic operations, calls through function values (a
+//	call through a function-typed PARAMETER of an unexported function all of whose
+//	callers are visible and pass functions is a call of one of those functions:
+//	collectFunArgs - a helper parameterised by a function is analysed like its
+//	instances written out),
 //	dynamic calls of SDF2/SDF3 interface methods (not followed: covered by
 //	induction over the shape tree, every implementation is summarised itself),
 //	calls into the standard library (not followed, listed by package).
@@ -81,13 +85,18 @@ type heldLock struct {
 }
 
 type analyser struct {
-	prog    *ssa.Program
-	sums    map[*ssa.Function]map[string]Effect
+	prog      *ssa.Program
+	sums      map[*ssa.Function]map[string]Effect
 	retBusy   map[string]bool
 	storeBusy map[string]bool
-	concret []types.Type          // module types (T and *T) for interface resolution
-	changed bool
-	inMod   map[*types.Package]bool
+	concret   []types.Type // module types (T and *T) for interface resolution
+	changed   bool
+	inMod     map[*types.Package]bool
+	// funArgs: for a function-typed parameter of an unexported package-level function or method
+	// whose every use is a direct call, the functions passed for it at ALL its call sites
+	// (collectFunArgs); absent = unknown (some call site passes a computed value, or the function
+	// is exported / stored / passed on, so that not all its callers are visible)
+	funArgs map[*ssa.Parameter][]*ssa.Function
 }
 
 func shortPkg(p *types.Package) string {
@@ -406,6 +415,33 @@ func (a *analyser) callResult(c *ssa.Call, idx int, seen map[ssa.Value]bool) ref
 		return ref{local: true}
 	}
 	cal := c.Call.StaticCallee()
+	if cal == nil {
+		// a call through a function-typed parameter that is bound to known functions: the join of
+		// what they return (re-rooted at the arguments of THIS call)
+		if fns := a.boundFuncs(c.Call.Value); fns != nil && !c.Call.IsInvoke() {
+			res := ref{local: true}
+			all := true
+			for _, g := range fns {
+				if !a.follow(g) {
+					all = false
+					break
+				}
+				key := fmt.Sprintf("%p/%d", g, idx)
+				if a.retBusy[key] {
+					continue
+				}
+				a.retBusy[key] = true
+				for _, rv := range retValues(g, idx) {
+					r := a.refOf(rv, map[ssa.Value]bool{})
+					res = a.join(res, a.reroot(r, c.Common(), seen))
+				}
+				delete(a.retBusy, key)
+			}
+			if all {
+				return res
+			}
+		}
+	}
 	if cal == nil || !a.follow(cal) {
 		d := "call"
 		if cal != nil {
@@ -1140,6 +1176,23 @@ func (a *analyser) call(f *ssa.Function, ins ssa.Instruction, c *ssa.CallCommon,
 			what = "phi"
 		}
 		a.add(f, Effect{Kind: "FunVal", Loc: what, Fn: name})
+		// the parameter is bound to known functions at every call site of f: the call is a call
+		// of one of them (the arguments are those of this call; variables captured by a closure
+		// passed for the parameter live in the frame of f's caller and stay unbound)
+		for _, g := range a.boundFuncs(c.Value) {
+			if isGo {
+				a.add(f, Effect{Kind: "Go", Loc: fnName(g), Fn: name})
+			}
+			if a.follow(g) {
+				a.inline(f, g, c.Args, nil, held, isGo)
+			} else {
+				pk := "?"
+				if g.Pkg != nil {
+					pk = g.Pkg.Pkg.Path()
+				}
+				a.add(f, Effect{Kind: "Ext", Loc: pk, Op: g.String(), Fn: name})
+			}
+		}
 		return
 	}
 	p, t, m := recvTypeName(cal)
@@ -1223,6 +1276,126 @@ func (a *analyser) hasModuleImpl(t types.Type) bool {
 		}
 	}
 	return false
+}
+
+// boundFuncs: the functions a called value stands for when it is a function-typed parameter with
+// a complete set of bindings (nil otherwise).
+func (a *analyser) boundFuncs(v ssa.Value) []*ssa.Function {
+	p, ok := peel(v).(*ssa.Parameter)
+	if !ok {
+		return nil
+	}
+	return a.funArgs[p]
+}
+
+// collectFunArgs finds, for every unexported package-level function or method of the followed
+// packages that has function-typed parameters and is only ever called directly (never stored,
+// passed on, turned into a method value or reached through an interface), the functions passed
+// for those parameters at all its call sites.  A call site that passes something else than a
+// function, a closure, or the caller's own bound function parameter makes the parameter unknown.
+func (a *analyser) collectFunArgs() {
+	a.funArgs = map[*ssa.Parameter][]*ssa.Function{}
+	isFuncType := func(t types.Type) bool { _, ok := t.Underlying().(*types.Signature); return ok }
+	candidate := func(g *ssa.Function) bool {
+		if g == nil || g.Parent() != nil || g.Synthetic != "" || g.Blocks == nil || !a.follow(g) {
+			return false
+		}
+		if o := g.Object(); o == nil || o.Exported() {
+			return false
+		}
+		for _, p := range g.Params {
+			if isFuncType(p.Type()) {
+				return true
+			}
+		}
+		return false
+	}
+	escaped := map[*ssa.Function]bool{}
+	unknown := map[*ssa.Parameter]bool{}
+	raw := map[*ssa.Parameter][]ssa.Value{}
+	for fn := range ssautil.AllFunctions(a.prog) {
+		for _, b := range fn.Blocks {
+			for _, ins := range b.Instrs {
+				var callee *ssa.Function
+				if ci, ok := ins.(ssa.CallInstruction); ok {
+					cc := ci.Common()
+					if g := cc.StaticCallee(); g != nil && !cc.IsInvoke() {
+						if _, direct := cc.Value.(*ssa.Function); direct && candidate(g) {
+							callee = g
+							for i, p := range g.Params {
+								if !isFuncType(p.Type()) {
+									continue
+								}
+								if i < len(cc.Args) {
+									raw[p] = append(raw[p], cc.Args[i])
+								} else {
+									unknown[p] = true
+								}
+							}
+						}
+					}
+				}
+				// every other mention of a candidate function lets it escape
+				for _, op := range ins.Operands(nil) {
+					if op == nil || *op == nil {
+						continue
+					}
+					if g, ok := peel(*op).(*ssa.Function); ok && candidate(g) {
+						if ci, isCall := ins.(ssa.CallInstruction); isCall && g == callee && ci.Common().Value == *op {
+							continue
+						}
+						escaped[g] = true
+					}
+				}
+			}
+		}
+	}
+	// synthetic wrappers (bound method values, interface thunks) call the method with their own parameters
+	var resolve func(p *ssa.Parameter, busy map[*ssa.Parameter]bool) ([]*ssa.Function, bool)
+	resolve = func(p *ssa.Parameter, busy map[*ssa.Parameter]bool) ([]*ssa.Function, bool) {
+		if unknown[p] || busy[p] || escaped[p.Parent()] || len(raw[p]) == 0 {
+			return nil, false
+		}
+		busy[p] = true
+		defer delete(busy, p)
+		seen := map[*ssa.Function]bool{}
+		var out []*ssa.Function
+		for _, v := range raw[p] {
+			switch x := peel(v).(type) {
+			case *ssa.Function:
+				if !seen[x] {
+					seen[x] = true
+					out = append(out, x)
+				}
+			case *ssa.MakeClosure:
+				g := x.Fn.(*ssa.Function)
+				if !seen[g] {
+					seen[g] = true
+					out = append(out, g)
+				}
+			case *ssa.Parameter:
+				gs, ok := resolve(x, busy)
+				if !ok {
+					return nil, false
+				}
+				for _, g := range gs {
+					if !seen[g] {
+						seen[g] = true
+						out = append(out, g)
+					}
+				}
+			default:
+				return nil, false
+			}
+		}
+		sort.Slice(out, func(i, j int) bool { return out[i].String() < out[j].String() })
+		return out, len(out) > 0
+	}
+	for p := range raw {
+		if fns, ok := resolve(p, map[*ssa.Parameter]bool{}); ok {
+			a.funArgs[p] = fns
+		}
+	}
 }
 
 // inline: add the callee's current summary to f, re-rooted at the actual arguments.
@@ -1365,6 +1538,7 @@ func Analyse(repo string) (*Result, error) {
 	prog, spkgs := ssautil.AllPackages(pkgs, ssa.InstantiateGenerics)
 	prog.Build()
 	a := &analyser{prog: prog, sums: map[*ssa.Function]map[string]Effect{}, retBusy: map[string]bool{}, storeBusy: map[string]bool{}, inMod: map[*types.Package]bool{}}
+	a.collectFunArgs()
 	// concrete types of all non-std packages
 	for _, p := range prog.AllPackages() {
 		if !followPkg(p.Pkg.Path()) {
